@@ -38,6 +38,8 @@ CFG = {
     'eqR': list(range(1, 17, 3)) + [],      # range 1,4,..,16 with the same end points as eqA/eqB (6 entries)
     'eqC': list(range(1, 25, 2)),           # range 1..23 step 2 (12 entries) and
     'eqD': [1, 2, 5, 7, 9, 10, 13, 15, 17, 20, 21, 23],   # an irregular list with the same length and end points (and (last-first) % (n-1) == 0)
+    'evs': list(range(4, 13, 2)),         # suffix of ev: a strided range that starts later than a same-step partner
+    'evp': list(range(6, 17, 2)),         # same step as ev, partly overlapping, union is again a range
     'c20': list(range(1, 21)),            # longer contiguous chain
     'st3': list(range(4, 21, 3)),         # coarser range inside c20 whose size does not tile it (20/6 != 3)
 }
@@ -79,6 +81,9 @@ LAYOUTS_QUICK = [
     {'A|r1': 'st3'},
     {'A|r1': 'eqA'},
     {'A|r1': 'eqB'},
+    {'A': 'c12', 'A|r2': 'c8'},            # a bare chain name is a replica of the ensemble of the same name
+    {'A|r1': 'evs'},
+    {'A|r1': 'evp'},
 ]
 LAYOUTS_MORE = [
     {'A|r1': 's3'},
